@@ -94,7 +94,7 @@ PROPS["C11"] = {
         {"name": "ep2-w64-381", "world": "W64-381", "src": "props/C11_ep2.c", "tiers": ("thorough",), "share": 0.05},
         {"name": "ep2-w64-446", "world": "W64-446", "src": "props/C11_ep2.c", "tiers": ("thorough",), "share": 0.04},
         {"name": "ep2-w64-446q", "world": "W64-446q", "src": "props/C11_ep2.c", "tiers": ("thorough",), "share": 0.04},
-        {"name": "fam-g2-w64-315", "world": "W64-315", "src": "props/C04_fam.c", "tiers": ("thorough",), "args": ["--only", "c11-"], "share": 0.035},
+        {"name": "fam-g2-w64-315", "world": "W64-315", "src": "props/C04_fam.c", "args": ["--only", "c11-"], "share": 0.035, "share_quick": 0.15},
         {"name": "fam-g2-w64-330", "world": "W64-330", "src": "props/C04_fam.c", "tiers": ("thorough",), "args": ["--only", "c11-"], "share": 0.035},
         {"name": "fam-g2-w64-638", "world": "W64-638", "src": "props/C04_fam.c", "tiers": ("thorough",), "args": ["--only", "c11-"], "share": 0.035},
         {"name": "fam-g2-w64-575q", "world": "W64-575q", "src": "props/C04_fam.c", "tiers": ("thorough",), "args": ["--only", "c11-"], "share": 0.035},
@@ -128,7 +128,7 @@ PROPS["C12"] = {
         {"name": "pc-w64-381", "world": "W64-381", "src": "props/C12_pc.c"},
         {"name": "pc-w64-446", "world": "W64-446", "src": "props/C12_pc.c", "tiers": ("thorough",)},
         {"name": "pc-w64-446q", "world": "W64-446q", "src": "props/C12_pc.c", "tiers": ("thorough",)},
-        {"name": "fam-pc-w64-315", "world": "W64-315", "src": "props/C04_fam.c", "tiers": ("thorough",), "args": ["--only", "c12-"]},
+        {"name": "fam-pc-w64-315", "world": "W64-315", "src": "props/C04_fam.c", "args": ["--only", "c12-"]},
         {"name": "fam-pc-w64-330", "world": "W64-330", "src": "props/C04_fam.c", "tiers": ("thorough",), "args": ["--only", "c12-"]},
         {"name": "fam-pc-w64-638", "world": "W64-638", "src": "props/C04_fam.c", "tiers": ("thorough",), "args": ["--only", "c12-"]},
         {"name": "fam-pc-w64-575q", "world": "W64-575q", "src": "props/C04_fam.c", "tiers": ("thorough",), "args": ["--only", "c12-"]},
@@ -162,7 +162,7 @@ PROPS["C04"] = {
         {"name": "pair-w64-381", "world": "W64-381", "src": "props/C04_pair.c"},
         {"name": "pair-w64-446", "world": "W64-446", "src": "props/C04_pair.c", "tiers": ("thorough",)},
         {"name": "pair-w64-446q", "world": "W64-446q", "src": "props/C04_pair.c", "tiers": ("thorough",)},
-        {"name": "fam-w64-315", "world": "W64-315", "src": "props/C04_fam.c", "tiers": ("thorough",), "args": ["--only", "c04-"]},
+        {"name": "fam-w64-315", "world": "W64-315", "src": "props/C04_fam.c", "args": ["--only", "c04-"]},
         {"name": "fam-w64-330", "world": "W64-330", "src": "props/C04_fam.c", "tiers": ("thorough",), "args": ["--only", "c04-"]},
         {"name": "fam-w64-638", "world": "W64-638", "src": "props/C04_fam.c", "tiers": ("thorough",), "args": ["--only", "c04-"]},
         {"name": "fam-w64-575q", "world": "W64-575q", "src": "props/C04_fam.c", "tiers": ("thorough",), "args": ["--only", "c04-"]},
